@@ -27,6 +27,7 @@ LEVEL_TEXT = ("Static field-completeness and agreement rules over the nine Expr 
               "key, the pickle state, the hash, the repr and the rebuilder, in constructor order; repr templates "
               "and pyparsing productions must have the same token shape. Decides these necessary clauses; performs "
               "no construction, pickling or parsing.")
+LEVEL_TEXT += ' Also: every constructor that rewrites its arguments reaches a fixed point on what it stored (pickle/copy/repr rebuild through the constructor).'
 ASSUMPTIONS = ["CPython ast", "Python's repr of a 1-tuple has a trailing comma; pyparsing.delimitedList accepts none",
                "pyparsing.QuotedString(escChar) removes the escape character only (it is not a Python literal reader)"]
 
